@@ -1,7 +1,8 @@
 #!/venv/bin/python
 import json, sys
 pid = sys.argv[1]
-round2 = len(sys.argv) > 2 and sys.argv[2] == '2'
+rnd = int(sys.argv[2]) if len(sys.argv) > 2 else 1
+round2 = rnd >= 2
 for l in open('/verif/properties.jsonl'):
     p = json.loads(l)
     if p['id'] == pid:
@@ -20,7 +21,8 @@ if round2:
              "(pick other functions / other clauses of the property / other mechanisms):\n" + '\n'.join(prev) + "\nAll THREE changes of this round should need a rather specific trigger "
              "(particular sizes or alignments, particular option values such as options.lsb0 / options.bytealigned / options.mxfp_overflow, a particular order of several calls, particular "
              "class or dtype combinations, values at numeric limits, rarely used keyword arguments or input types) - none of them should be exposed by the most ordinary use of the feature. "
-             "Write the files of this round as seed_k.diff / demo_k.py / meta_k.json with k = 4, 5, 6.\n\n")
+             f"Write the files of this round as seed_k.diff / demo_k.py / meta_k.json with k = {3 * rnd - 2}, {3 * rnd - 1}, {3 * rnd}.\n\n"
+             + ("The demos must put the checkout they are run from first on sys.path (sys.path.insert(0, os.getcwd())) before importing bitstring. Earlier rounds have used up the obvious ideas (option-dependent helpers, shared caches, numeric limits): look for less visited code paths and for interactions between two features.\n\n" if rnd >= 3 else ""))
 print(f"""You are helping to evaluate a verification effort for the open-source Python library `bitstring` (scott-griffiths/bitstring, a pure-Python bit-level binary data library built on the `bitarray` C extension). Your job is to act as a realistic "bug seeder".
 
 You have your own scratch git worktree of the library at {wt} (a detached checkout). Work ONLY inside {wt} (never touch /repo or /verif, and do not read anything under /verif). Python is /venv/bin/python. When you run things from inside {wt} (e.g. `cd {wt} && /venv/bin/python -m pytest -q -p no:cacheprovider --timeout=900`, or `cd {wt} && /venv/bin/python demo.py`) the worktree's own `bitstring` package is the one imported (check `bitstring.__file__` starts with {wt}). The existing test suite is in {wt}/tests (836 tests, takes ~25 s).
